@@ -9,7 +9,7 @@ ID = "C02"
 LEVEL = "exploration"
 RULE = (
     "Hypothesis: RDF 1.1 statement sets (s IRI|BNode, p IRI, o IRI|BNode|plain/lang/typed literal, g IRI|BNode|default) "
-    "built into rdflib Graph (TRIPLES) / Dataset (QUADS, GRAPHS) x entry point (Graph.serialize to bytes / to a "
+    "built into rdflib Graph (TRIPLES) / Dataset (QUADS, GRAPHS; sometimes with registered named graphs that hold no triples) x entry point (Graph.serialize to bytes / to a "
     "destination, stream_frames, flat_stream_to_file, grouped_stream_to_file) x flat or grouped logical type x "
     "boundary presets x frame sizes x delimited / non-delimited flat x reader (Graph/Dataset.parse, "
     "parse_jelly_to_graph, parse_jelly_flat, parse_jelly_grouped merged). Oracle: set of (kind, string, language, "
@@ -37,6 +37,8 @@ def body(case, acc):
             labels.append("bnode_graph")
         if ("default",) in graphs:
             labels.append("default_graph")
+        if case.get("empty_graphs"):
+            labels.append("empty_named_graph")
         labels.append("logical_%d" % case["logical"])
         labels.append("reader_" + case["reader"])
         nt = len(case["statements"]) >= 2 and any(x in labels for x in ("eviction", "multi_frame", "elision")) and (
